@@ -32,8 +32,33 @@ def s2c_stream(ctx, gen_cfg, overrides, variants, label="s2c", nontrivial=None):
     return paths
 
 
+def _buf_replayer(extra, path):
+    for v in (0, 1, 2):
+        r = nd.replay_buf(extra, path, v, _INDEX)
+        if r is not None:
+            return r
+    return None
+
+
+def s2c_buffer(ctx, overrides):
+    """Every path through the bounded StreamBuffer graph on the real _StreamBuffer (threshold 4)."""
+    global _INDEX
+    t0 = time.time()
+    paths = nd.graph_paths(ctx, "net", "GenG_StreamBuffer", "GenG_StreamBuffer.cfg", overrides=overrides)
+    ctx._phase("gen:StreamBuffer", t0)
+    t0 = time.time()
+    _INDEX = nd.BranchIndex(paths)
+    ctx.replay(paths, _buf_replayer, label="s2c-buffer")
+    ctx._phase("replay:StreamBuffer", t0)
+    return paths
+
+
 def replay_file(ctx, rec):
     d = rec["detail"]
+    if "path" in d and (d.get("divergence") or {}).get("sig", {}).get("module") == "StreamBuffer":
+        r = nd.replay_buf(d["extra"], d["path"], d["divergence"].get("variant", 0), None)
+        print("replay:", "diverges " + framework.jdump(r) if r else "follows the specification")
+        return 1 if r else 0
     if "path" in d:
         v = (d.get("divergence") or {}).get("variant") or nd.VARIANTS[0]
         r = nd.replay_stream(d["extra"], d["path"], v, None)
